@@ -55,6 +55,7 @@ def run(tier, replay=None):
                 rows.append(row(v, fid, frame))
         # fixed-size bodies
         done = set()
+        nalias = {}
         for v in vectors:
             key = (v['family'], v['version'], v['dir'], v['object'])
             if v['class'] != 'canonical' or key in done or v['family'] == 'login':
@@ -73,8 +74,19 @@ def run(tier, replay=None):
             lens = list(range(0, n)) + [n + 1, n + 2, n + 17]
             if tier == 'quick' and len(lens) > 12:
                 lens = sorted(set([0, 1, n - 1, n + 1, n + 2, n + 17] + rng.sample(range(0, n), 6)))
+            # lengths that alias the right one when a size computation drops high bits (header size = body + 2 / + 4)
+            top = 0xFFFF - (4 if v['dir'] == 'client' else 2)
+            if v['version'] == 'wrath' and v['dir'] == 'server':
+                top = 0x7FFFFF - 2
+            alias = [n + a for a in (0x100, 0x8000, 0x10000) if n + a <= top]
+            if tier == 'quick':
+                # the first three constant-sized messages of every (expansion, direction) in the quick tier (the frames are 32 - 64 KiB each)
+                k = (v['version'], v['dir'])
+                nalias[k] = nalias.get(k, 0) + 1
+                alias = alias if nalias[k] <= 3 else []
+            lens += alias
             for L in lens:
-                nb = (body + bytes(rng.getrandbits(8) for _ in range(32)))[:L]
+                nb = (body + (bytes(rng.getrandbits(8) for _ in range(32)) if L <= len(body) + 32 else rng.randbytes(L - len(body))))[:L]
                 fid = f"{v['id']}!size={L}"
                 cases[fid] = {'id': fid, 'kind': 'size', 'family': v['family'], 'version': v['version'], 'dir': v['dir'],
                               'object': v['object'], 'field': f'len{L - n:+d}', 'const_size': n, 'len': L,
@@ -105,6 +117,60 @@ def run(tier, replay=None):
                     rows.append(row(pv, fid, frame))
     binary = common.cargo_build('codec_driver')
     ev = common.run_driver(binary, rows, 'c04')
+    # the same size faults through the typed expect helper of the message, and undefined opcodes through a typed helper that expects some
+    # defined message: the helpers parse headers with their own code
+    trows, tmeta = [], {}
+    some_name = {}
+    if corpus is not None:
+        for key, env in corpus.envs.items():
+            if env.family != 'world':
+                continue
+            cdc = codec.Codec(env)
+            for d in ('client', 'server'):
+                names = sorted(c.name for c in env.messages() if d in cdc.directions(c) and sizes_const(cdc, c))
+                if names:
+                    some_name[(env.version, d)] = names[len(names) // 2]
+    for fid, cs in cases.items():
+        if cs['family'] != 'world':
+            continue
+        if cs['kind'] == 'size':
+            trows.append([fid + '/typed', 'W.stream', cs['version'], cs['dir'], 'expect', 'plain', cs['object'], cs['hex']])
+            tmeta[fid + '/typed'] = cs
+        elif cs['kind'] == 'opcode' and (cs['injected'] % 7 == 0 or cs['injected'] > 0xFFFF or tier == 'thorough') and (cs['version'], cs['dir']) in some_name:
+            trows.append([fid + '/typed', 'W.stream', cs['version'], cs['dir'], 'expect', 'plain', '!' + some_name[(cs['version'], cs['dir'])], cs['hex']])
+            tmeta[fid + '/typed'] = cs
+    tev = common.run_driver(binary, trows, 'c04t', timeout=60) if trows else {}
+    for tid, cs in tmeta.items():
+        e = tev.get(tid)
+        if e is None or e.get('result') not in ('done',):
+            chk.inconclusive.append(f'{tid}: typed reader gave no observation ({e and e.get("result")})')
+            continue
+        msgs = e.get('msgs') or []
+        m0 = msgs[0] if msgs else {}
+        bad = None
+        if not msgs:
+            bad = 'driver:no-message-record' if len(cs['hex']) // 2 > 0 else None
+            if bad is None:
+                continue
+        elif m0.get('result') == 'ok':
+            bad = 'accepted'
+        elif m0.get('result') != 'err':
+            bad = f"driver:{m0.get('result')}"
+        elif cs['kind'] == 'opcode':
+            if m0.get('err_kind') == 'Io':
+                bad = None      # a body shorter than the header announces: the stream ends first
+            elif m0.get('err_kind') != 'Opcode':
+                bad = 'wrong-error-kind'
+            elif m0.get('err_value') != cs['injected']:
+                bad = 'wrong-error-value'
+        chk.count(f"typed-{cs['kind']}:{bad or 'rejected'}")
+        site = (cs['family'], cs['version'], cs['dir'], cs['object'], 'typed-' + cs['kind'], cs['field'] if cs['kind'] != 'opcode' else cs['injected'] >> 8)
+        if bad is None:
+            chk.ok(site)
+        else:
+            obs = {'check': 'typed-' + cs['kind'], 'family': cs['family'], 'version': cs['version'], 'dir': cs['dir'], 'object': cs['object'],
+                   'field': cs['field'], 'outcome': bad, 'err_kind': m0.get('err_kind'), 'panic_at': m0.get('panic_at'), 'alias_class': None}
+            chk.violation(obs, {'case': cs, 'event': e, 'row': [r for r in trows if r[0] == tid][0]})
     # the same login enum faults through the protocol-parameterised entry points (collective layer)
     if not replay or any(cs.get('kind') == 'enum' and cs['family'] == 'login' for cs in cases.values()):
         abin = common.cargo_build('async_driver')
@@ -186,6 +252,13 @@ def run(tier, replay=None):
     chk.assumptions += ['an undeclared enum value must be reported through EnumError.value (as unsigned or sign-extended wire value)',
                         'constant size = exact interval evaluation of ref/sizes.py (min == max)']
     return chk.finish()
+
+
+def sizes_const(cdc, c):
+    try:
+        return sizes.constant_size(cdc, c) is not None
+    except (sizes.Approx, codec.RefError):
+        return False
 
 
 def alias_class(cs):
